@@ -217,10 +217,10 @@ Lemma load_expired_core : forall st gs o r st', Core st gs -> o < nobj st -> loa
 Proof.
   intros st gs o r st' C Ho H Hr. unfold load_expired in H.
   destruct (oatt (objs st o)) eqn:Ea; cbn [negb] in H.
-  2:{ inversion H; subst. exists gs. split; [exact C|]. repeat split; auto; try (intros X; discriminate). }
+  2:{ inversion H; subst. exists gs. split; [exact C|]. repeat split; auto; try (intros X; discriminate); try discriminate. }
   apply bind_inv in H. destruct H as [[s1 [H1 H]]|[H1 Hn]].
   2:{ destruct (flush_core st gs r st' C H1 Hr) as [C1 (A1 & A2 & A3 & A4 & A5 & A6 & _)].
-      exists gs. split; [exact C1|]. repeat split; auto. intros X; congruence. }
+      exists gs. split; [exact C1|]. repeat split; auto; try congruence. }
   destruct (flush_core st gs Ok s1 C H1) as [C1 (A1 & A2 & A3 & A4 & A5 & A6 & _)]; [discriminate|].
   assert (Ho1 : o < nobj s1) by lia.
   apply bind_inv in H. destruct H as [[s2 [H2 H]]|[H2 Hn]].
@@ -234,4 +234,238 @@ Proof.
   - unfold head_usable in *. rewrite D2. exact Hu2.
   - apply D6; auto.
   - apply D6; auto.
+Qed.
+
+(* ------------------------------------------------------------------ the operations *)
+Lemma op_load_core : forall st gs o r st', Core st gs -> do_op (OLoad o) st = (r, st') -> r <> Unmodelled ->
+  exists gs', Core st' gs'.
+Proof.
+  intros st gs o r st' C H Hr. cbn [do_op] in H.
+  destruct (Nat.ltb_spec o (nobj st)); cbn [negb] in H; [|inversion H; subst; congruence].
+  destruct (odv (objs st o)); [inversion H; subst; eauto|].
+  destruct (load_expired_core st gs o r st' C H0 H Hr) as [gs' [C' _]]. eauto.
+Qed.
+
+Lemma op_setv_core : forall st gs o v r st', Core st gs -> head_usable st = true -> do_op (OSetV o v) st = (r, st') ->
+  r <> Unmodelled -> exists gs', Core st' gs'.
+Proof.
+  intros st gs o v r st' C Hu H Hr. cbn [do_op] in H.
+  destruct (Nat.ltb_spec o (nobj st)); cbn [negb] in H; [|inversion H; subst; congruence].
+  inversion H; subst r st'. clear H.
+  pose proof (c_good _ _ C) as G. destruct (c_j _ _ C o H0) as [J1 [J2 J3]].
+  unfold mod_obj. apply (core_modify st gs o); auto.
+  - repeat split.
+  - intros Ei k v0 Ek Ew. destruct (g_rows _ _ _ _ _ G o k Ei Ek) as [v1 [Hv1 Hva]].
+    assert (v1 = v0) by congruence. subst v1. destruct Hva as [V1 [V2 [V3 [V4 [V5 V6]]]]].
+    unfold VA. cbn. split; [exact V1|]. split; [exact V2|]. split.
+    { intros X. destruct (ocv (objs st o)); discriminate. }
+    split.
+    { intros old X. destruct (ocv (objs st o)) as [c|] eqn:Ec; [apply V4; congruence|].
+      inversion X. destruct (V3 eq_refl) as [Y|Y]; congruence. }
+    split; [intros _; discriminate|intros X; discriminate].
+  - cbn. intros K A D. split; [discriminate|]. apply (g_delv _ _ _ _ _ G o); auto.
+  - cbn. split; [intros X; discriminate|exact J2].
+Qed.
+
+Lemma op_setpk_core : forall st gs o pk r st', Core st gs -> head_usable st = true -> do_op (OSetPK o pk) st = (r, st') ->
+  r <> Unmodelled -> exists gs', Core st' gs'.
+Proof.
+  intros st gs o pk r st' C Hu H Hr. cbn [do_op] in H.
+  destruct (Nat.ltb_spec o (nobj st)); cbn [negb] in H; [|inversion H; subst; congruence].
+  apply bind_inv in H.
+  (* the state at the assignment: the primary key attribute is loaded or was assigned before *)
+  assert (Step : forall s1 gs1, Core s1 gs1 -> head_usable s1 = true -> o < nobj s1 ->
+            needs_pk_load (objs s1 o) = false \/ odid (objs s1 o) <> None ->
+            exists gs', Core (modified_event o (mod_obj s1 o (fun ob =>
+                     o_did (o_cid ob (match ocid ob with None => odid ob | c => c end)) (Some pk)))) gs').
+  { intros s1 gs1 C1 Hu1 Ho1 Hl.
+    pose proof (c_good _ _ C1) as G. destruct (c_j _ _ C1 o Ho1) as [J1 [J2 J3]].
+    assert (Hdid : odid (objs s1 o) <> None).
+    { destruct Hl as [Hl|Hl]; auto. unfold needs_pk_load in Hl.
+      destruct (ocid (objs s1 o)) eqn:E1; [apply J2; discriminate|]. destruct (odid (objs s1 o)); [discriminate|discriminate]. }
+    assert (Hdv : odv (objs s1 o) <> None) by (intros X; apply Hdid; auto).
+    unfold mod_obj. apply (core_modify s1 gs1 o); auto.
+    - repeat split.
+    - intros Ei k v0 Ek Ew. destruct (g_rows _ _ _ _ _ G o k Ei Ek) as [v1 [Hv1 Hva]].
+      assert (v1 = v0) by congruence. subst v1. destruct Hva as [V1 [V2 [V3 [V4 [V5 V6]]]]].
+      unfold VA. cbn. split.
+      { intros X. destruct (ocid (objs s1 o)); [discriminate|]. congruence. }
+      split.
+      { intros old X. split; [|discriminate]. destruct (ocid (objs s1 o)) as [c|] eqn:Ec.
+        - apply (V2 old). congruence.
+        - destruct (V1 eq_refl) as [Y|Y]; congruence. }
+      split; [exact V3|]. split; [exact V4|]. split; [exact V5|intros X; discriminate].
+    - cbn. intros K A D. split; [|discriminate]. apply (g_delv _ _ _ _ _ G o); auto.
+    - cbn. split; [intros X; congruence|intros _; discriminate]. }
+  destruct (needs_pk_load (objs st o)) eqn:En.
+  - destruct H as [[s1 [H1 H]]|[H1 Hn]].
+    + destruct (load_expired_core st gs o Ok s1 C H0 H1) as [gs1 (C1 & N1 & _ & _ & _ & L)]; [discriminate|].
+      destruct (L eq_refl) as [Hu1 [Hd1 _]]. inversion H; subst r st'.
+      apply (Step s1 gs1); auto. lia.
+    + destruct (load_expired_core st gs o r st' C H0 H1 Hr) as [gs1 [C1 _]]. eauto.
+  - destruct H as [[s1 [H1 H]]|[H1 Hn]]; inversion H1; subst.
+    + inversion H; subst r st'. apply (Step s1 gs); auto.
+    + congruence.
+Qed.
+
+(* the marked-for-deletion list only matters through pdelf, and only for objects whose flag is set *)
+Lemma Rel_sdel : forall g f ob n sn sd sd' W, Rel g f ob n sn sd W ->
+  (forall x, mem x sd' = mem x sd \/ odelf (ob x) = false) -> Rel g f ob n sn sd' W.
+Proof.
+  intros g f ob n sn sd sd' W R H. destruct R as [r1 r2 r3 r4 r5 r6 r7 r8 r9 r9' r10 r11]. constructor; auto.
+  intros o A B. destruct (r3 o A B) as [X Y]. split; auto. intros Ha. destruct (Y Ha) as [Y1 Y2]. split; auto.
+  rewrite <- Y2. unfold pdelf. destruct (H o) as [E|E]; [rewrite E; reflexivity|].
+  rewrite E. destruct (mem o (fdel f) || mem o sd'), (mem o (fdel f) || mem o sd); reflexivity.
+Qed.
+
+Lemma persistent_in : forall st gs o k, Core st gs -> o < nobj st -> okey (objs st o) = Some k -> oatt (objs st o) = true ->
+  odelf (objs st o) = false -> oin (objs st o) = true /\ im_other st o = None.
+Proof.
+  intros st gs o k C Ho Ek Ea Ed. pose proof (c_good _ _ C) as G.
+  assert (Hi : oin (objs st o) = true) by (apply (g_pers _ _ _ _ _ G o k); auto).
+  split; auto. destruct (im_other st o) as [o'|] eqn:E; auto.
+  destruct (im_other_some _ _ _ E) as [A1 [A2 [A3 [A4 A5]]]]. exfalso. apply A2.
+  apply (g_uniq _ _ _ _ _ G o' o k); auto. congruence.
+Qed.
+
+(* a change of session._deleted on a persistent object, the head transaction ACTIVE *)
+Lemma core_set_sdel : forall st gs sd' f rest, Core st gs -> stack st = f :: rest -> fstate f = ACTIVE ->
+  NoDup sd' -> (forall x, In x sd' -> oin (objs st x) = true) ->
+  (forall x, mem x sd' = mem x (sdel st) \/ odelf (objs st x) = false) ->
+  Core (set_sdel st sd') gs.
+Proof.
+  intros st gs sd' f rest C Hs Hf Hnd Hin Hm. pose proof C as C0. destruct C as [G Jh D Ch Em].
+  eapply Core_update; eauto.
+  - repeat split; reflexivity.
+  - unfold GoodS. cbn [objs nobj work snew sdel set_sdel].
+    destruct G as [g1 g2 g3 g4 g5 g5' g6 g6' g7 g8]. constructor; auto. split; [apply g6'|exact Hnd].
+  - intros g0 f0 rest0 gs0 S1 S2 S3 R. cbn [objs nobj work snew sdel set_sdel]. eapply Rel_sdel; eauto.
+  - intros f0 rest0 S1 S2. exfalso. apply S2. congruence.
+  - intros S1. congruence.
+Qed.
+
+Lemma op_new_core : forall st gs pk v r st', Core st gs -> head_usable st = true -> do_op (ONew pk v) st = (r, st') ->
+  r <> Unmodelled -> exists gs', Core st' gs'.
+Proof.
+  intros st gs pk v r st' C Hu H Hr. cbn [do_op] in H.
+  pose proof (core_new_transient st gs pk v C Hu) as C1.
+  set (s1 := set_nobj (set_obj st (nobj st) (new_obj pk v)) (S (nobj st))) in *.
+  assert (Hu1 : head_usable s1 = true) by exact Hu.
+  unfold save_or_update in H. cbn [objs s1 set_nobj set_obj set_objs] in H. rewrite updN_same in H. cbn [okey new_obj] in H.
+  destruct (autobegin_core s1 gs C1) as [gs2 [C2 [A1 A2]]].
+  assert (Hne : exists f rest, stack (autobegin s1) = f :: rest /\ fstate f = ACTIVE).
+  { destruct (stack s1) as [|f rest] eqn:Es.
+    - destruct (A2 eq_refl) as [f [X1 [X2 _]]]. exists f, []. auto.
+    - destruct (A1 ltac:(discriminate)) as [_ X]. rewrite X. exists f, rest. split; auto. eapply head_usable_active; eauto. }
+  destruct Hne as [f [rest [Hs2 Hf2]]].
+  assert (Eo : objs (autobegin s1) = objs s1 /\ nobj (autobegin s1) = nobj s1 /\ snew (autobegin s1) = snew s1).
+  { unfold autobegin. destruct (stack s1); repeat split; reflexivity. }
+  destruct Eo as (E1 & E2 & E3).
+  assert (Hnin : mem (nobj st) (snew (autobegin s1)) = false).
+  { destruct (mem (nobj st) (snew (autobegin s1))) eqn:E; auto. apply mem_In in E. rewrite E3 in E.
+    apply (g_new _ _ _ _ _ (c_good _ _ C)) in E. lia. }
+  rewrite Hnin in H. inversion H; subst r st'. exists gs2.
+  apply (core_make_pending (autobegin s1) gs2 (nobj st) f rest); auto.
+  - rewrite E2. cbn. lia.
+  - rewrite E1. cbn. rewrite updN_same. reflexivity.
+  - rewrite E1. cbn. rewrite updN_same. reflexivity.
+  - rewrite E1. cbn. rewrite updN_same. reflexivity.
+Qed.
+
+Lemma autobegin_active : forall st gs, Core st gs -> head_usable st = true ->
+  exists gs1 f rest, Core (autobegin st) gs1 /\ stack (autobegin st) = f :: rest /\ fstate f = ACTIVE /\
+    objs (autobegin st) = objs st /\ nobj (autobegin st) = nobj st /\ snew (autobegin st) = snew st /\ sdel (autobegin st) = sdel st.
+Proof.
+  intros st gs C Hu. destruct (autobegin_core st gs C) as [gs2 [C2 [A1 A2]]].
+  assert (Eo : objs (autobegin st) = objs st /\ nobj (autobegin st) = nobj st /\ snew (autobegin st) = snew st /\ sdel (autobegin st) = sdel st).
+  { unfold autobegin. destruct (stack st); repeat split; reflexivity. }
+  destruct (stack st) as [|f rest] eqn:Es.
+  - destruct (A2 eq_refl) as [f [X1 [X2 _]]]. exists gs2, f, []. split; [exact C2|]. split; [exact X1|]. split; [exact X2|]. exact Eo.
+  - destruct (A1 ltac:(discriminate)) as [_ X]. exists gs2, f, rest. rewrite X in *.
+    split; [exact C2|]. split; [exact Es|]. split; [eapply head_usable_active; eauto|]. exact Eo.
+Qed.
+
+Lemma op_add_core : forall st gs o r st', Core st gs -> guard st (OAdd o) = true -> do_op (OAdd o) st = (r, st') ->
+  r <> Unmodelled -> exists gs', Core st' gs'.
+Proof.
+  intros st gs o r st' C Hg H Hr. unfold guard in Hg. apply andb_prop in Hg. destruct Hg as [Hu Hg].
+  cbn [do_op] in H. destruct (Nat.ltb_spec o (nobj st)); [|inversion H; subst; congruence].
+  destruct (autobegin_active st gs C Hu) as (gs1 & f & rest & C1 & Hs1 & Hf1 & E1 & E2 & E3 & E4).
+  pose proof (c_good _ _ C1) as G1. pose proof (c_j _ _ C1) as J1.
+  assert (Hu1 : head_usable (autobegin st) = true) by (apply head_usable_autobegin; exact Hu).
+  unfold save_or_update in H. destruct (okey (objs st o)) as [k|] eqn:Ek.
+  - (* an object with an identity key *)
+    unfold update_impl in H. destruct (odelf (objs st o)) eqn:Ed; [inversion H; subst; eauto|].
+    destruct (oatt (objs st o)) eqn:Ea; cbn [negb] in H; [|inversion H; subst; congruence].
+    destruct (persistent_in (autobegin st) gs1 o k C1) as [Hi Hoth]; try congruence.
+    set (s2 := set_sdel (autobegin st) (remm o (sdel (autobegin st)))) in *.
+    assert (C2 : Core s2 gs1).
+    { apply (core_set_sdel (autobegin st) gs1 _ f rest); auto.
+      - unfold remm. apply NoDup_filter. apply (g_nodup _ _ _ _ _ G1).
+      - intros x Hx. apply (g_del _ _ _ _ _ G1). apply mem_In in Hx. rewrite mem_remm in Hx. apply andb_prop in Hx.
+        apply mem_In. tauto.
+      - intros x. rewrite mem_remm. destruct (Nat.eqb_spec o x); [subst; right; congruence|left; reflexivity]. }
+    unfold im_add in H. cbn [objs s2 set_sdel] in H. rewrite E1, Ek in H.
+    assert (Hoth2 : im_other s2 o = None) by exact Hoth. rewrite Hoth2 in H.
+    inversion H; subst r st'. exists gs1. unfold mod_obj. apply core_set_attrs; auto;
+      unfold s2; cbn [objs nobj work stack set_sdel].
+    + lia.
+    + repeat split; cbn; auto.
+    + intros _ k' v' K W.
+      destruct (g_rows _ _ _ _ _ G1 o k' Hi K) as [v1 [V1 V2]]. assert (v1 = v') by congruence. subst. exact V2.
+    + cbn. intros _ _ X. congruence.
+    + cbn. apply (J1 o); lia.
+    + intros X. congruence.
+  - (* no identity key: transient (becomes pending) or already pending *)
+    cbn in Hg. apply negb_true_iff in Hg.
+    destruct (mem o (snew (autobegin st))) eqn:Em.
+    + inversion H; subst r st'. exists gs1. unfold mod_obj.
+      assert (Hin : In o (snew (autobegin st))) by (apply mem_In; exact Em).
+      apply (g_new _ _ _ _ _ G1) in Hin. destruct Hin as [A1 [A2 A3]].
+      assert (Hni : oin (objs (autobegin st) o) = false).
+      { destruct (oin (objs (autobegin st) o)) eqn:Ei; auto. destruct (g_in _ _ _ _ _ G1 o Ei) as [_ [_ [_ X]]]. congruence. }
+      apply core_set_attrs; auto.
+      * repeat split; cbn; auto.
+      * intros X. congruence.
+      * cbn. apply (J1 o); auto.
+      * intros X. congruence.
+    + inversion H; subst r st'. exists gs1.
+      apply (core_make_pending (autobegin st) gs1 o f rest); auto; try congruence.
+      destruct (oatt (objs (autobegin st) o)) eqn:Ea; auto. exfalso.
+      assert (X : In o (snew (autobegin st))). { apply (g_new _ _ _ _ _ G1). repeat split; auto; congruence. }
+      apply mem_In in X. congruence.
+Qed.
+
+Lemma op_del_core : forall st gs o r st', Core st gs -> guard st (ODel o) = true -> do_op (ODel o) st = (r, st') ->
+  r <> Unmodelled -> exists gs', Core st' gs'.
+Proof.
+  intros st gs o r st' C Hg H Hr. unfold guard in Hg. apply andb_prop in Hg. destruct Hg as [Hu Hg]. apply negb_true_iff in Hg.
+  cbn [do_op] in H. destruct (Nat.ltb_spec o (nobj st)); cbn [negb] in H; [|inversion H; subst; congruence].
+  destruct (okey (objs st o)) as [k|] eqn:Ek; [|inversion H; subst; eauto].
+  destruct (oatt (objs st o)) eqn:Ea; cbn [negb] in H; [|inversion H; subst; congruence].
+  destruct (autobegin_active st gs C Hu) as (gs1 & f & rest & C1 & Hs1 & Hf1 & E1 & E2 & E3 & E4).
+  pose proof (c_good _ _ C1) as G1. pose proof (c_j _ _ C1) as J1.
+  assert (Hu1 : head_usable (autobegin st) = true) by (apply head_usable_autobegin; exact Hu).
+  destruct (mem o (sdel (autobegin st))) eqn:Em; [inversion H; subst; eauto|].
+  destruct (persistent_in (autobegin st) gs1 o k C1) as [Hi Hoth]; try congruence.
+  unfold bind, im_add in H. rewrite E1, Ek in H. rewrite Hoth in H. cbn [lift] in H. inversion H; subst r st'. clear H.
+  exists gs1.
+  set (s2 := mod_obj (autobegin st) o (fun ob => o_in ob true)).
+  assert (C2 : Core s2 gs1).
+  { unfold s2, mod_obj. apply core_set_attrs; auto.
+    - lia.
+    - repeat split; cbn; auto.
+    - intros _ k' v' K W. destruct (g_rows _ _ _ _ _ G1 o k' Hi K) as [v1 [V1 V2]]. assert (v1 = v') by congruence. subst. exact V2.
+    - cbn. intros _ _ X. congruence.
+    - cbn. apply (J1 o); lia.
+    - intros X; congruence. }
+  assert (Eo2 : forall x, odelf (objs s2 x) = odelf (objs (autobegin st) x) /\ oin (objs s2 x) = oin (objs (autobegin st) x)).
+  { intros x. unfold s2, mod_obj. cbn. unfold updN. destruct (Nat.eqb_spec x o); subst; cbn; auto. }
+  apply (core_set_sdel s2 gs1 _ f rest); auto.
+  - apply NoDup_snoc; [apply (g_nodup _ _ _ _ _ G1)|]. intros X. apply mem_In in X. cbn in X. congruence.
+  - intros x Hx. destruct (Eo2 x) as [_ B]. rewrite B. apply in_app_or in Hx. destruct Hx as [Hx|[Hx|[]]].
+    + apply (g_del _ _ _ _ _ G1). exact Hx.
+    + subst. exact Hi.
+  - intros x. cbn [sdel s2 mod_obj set_obj set_objs]. rewrite mem_app. cbn.
+    destruct (Nat.eqb_spec x o); [subst; right; rewrite updN_same; cbn; congruence|left; apply orb_false_r].
 Qed.
